@@ -68,7 +68,7 @@ def gen_ty(rng, c, toml, schema=None):
         return ["list", lk(), ["list", lk(), d()]] if toml or rng.random() < 0.5 else ["list", lk(), ["opt", d()]]
     if r < 0.80:
         return ["opt", ["list", lk(), d()]]
-    if r < 0.85:
+    if r < 0.88:
         return ["opt", ["dc", c]] if rng.random() < 0.5 else ["list", lk(), ["dc", c]]
     if c >= 2:
         k = 2 if c == 2 or rng.random() < 0.7 else 3
@@ -100,6 +100,13 @@ def reaches_class(schema, t, target, seen=None):
 SER_PROFILES = [(False, False), (False, False), (True, False), (False, True), (True, True), (True, True)]
 
 
+def gen_spell(rng):
+    """how types are written (same type, different registry branches): PEP 604 unions, builtin generics, collections.abc
+    generics, Annotated wrappers"""
+    return {"pep604": rng.random() < 0.4, "builtin": rng.random() < 0.4, "abc": rng.random() < 0.25,
+            "annotated": rng.random() < 0.3}
+
+
 def gen_hooks(rng):
     """hook profile of a class, stratified: 'no serialize hooks' (a pure transit class), pre only, post only, both -
     independent coin flips make the hook-less opted-in class in the middle of a chain too rare"""
@@ -121,10 +128,13 @@ def gen_chain_schema(rng):
               "dialect": False, "mixed_flags": True, "future_ann": rng.random() < 0.5, "chain": True,
               "names": names, "classes": classes}
     opt_defaults = toml or rng.random() < 0.5
+    schema["spell"] = gen_spell(rng)
 
-    def new_name(t):
+    def new_name(t, c=None):
         n = len(names)
-        names[str(n)] = {"ty": t, "default": bool(t[0] == "opt" and opt_defaults)}
+        names[str(n)] = {"ty": t, "default": bool(t[0] == "opt" and opt_defaults), "annotated": rng.random() < 0.3}
+        if c is not None and rng.random() < 0.6:
+            names[str(n)]["self"] = True
         return n
     lk = lambda: rng.choice(["list", "tuple", "dict"])
     for c in range(depth):
@@ -136,8 +146,9 @@ def gen_chain_schema(rng):
             own.append(new_name(link))
             if c >= 2 and rng.random() < 0.3:     # a second way down, skipping a level
                 own.append(new_name(rng.choice([["dc", c - 2], ["opt", ["dc", c - 2]], ["list", lk(), ["dc", c - 2]]])))
-            if rng.random() < 0.2:                # self reference
-                own.append(new_name(["opt", ["dc", c]]))
+            rng.shuffle(own)
+        if rng.random() < 0.35:                   # self reference (class name or typing.Self)
+            own.append(new_name(rng.choice([["opt", ["dc", c]], ["list", lk(), ["dc", c]], ["opt", ["list", lk(), ["dc", c]]]]), c))
             rng.shuffle(own)
         if not schema["kw_only"]:
             own = [n for n in own if not names[str(n)]["default"]] + [n for n in own if names[str(n)]["default"]]
@@ -160,20 +171,27 @@ def gen_schema(rng):
     schema = {"kind": kind, "kw_only": kw_only, "repl": rng.random() < 0.6, "toml_safe": toml,
               "dialect": kind != "plain" and rng.random() < 0.3, "future_ann": rng.random() < 0.5,
               "names": names, "classes": classes}
+    schema["spell"] = gen_spell(rng)
     lookalike = rng.random()
     for c in range(ncls):
-        parent = rng.randrange(c) if (inherit and c > 0 and rng.random() < 0.5) else None
+        # typing.Self in a field means the *subclass* when inherited: classes with Self-spelled fields stay leaves
+        pcands = [p for p in range(c) if not any(names[str(n)].get("self") for n in L.flat_fields(schema, p))]
+        parent = rng.choice(pcands) if (inherit and pcands and rng.random() < 0.5) else None
         inherited = L.flat_fields(schema, parent) if parent is not None else []
         nf = rng.randint(0 if parent is not None else 1, 3)
         own = []
         for _ in range(nf):
-            cands = [int(n) for n in names if allowed(names[n]["ty"], c) and int(n) not in inherited and int(n) not in own]
+            cands = [int(n) for n in names if allowed(names[n]["ty"], c) and int(n) not in inherited and int(n) not in own
+                     and not names[n].get("self")]
             if cands and rng.random() < lookalike:
                 own.append(rng.choice(cands))
             else:
                 t = gen_ty(rng, c, toml, schema)
                 n = len(names)
-                names[str(n)] = {"ty": t, "default": bool(t[0] == "opt" and opt_defaults)}
+                names[str(n)] = {"ty": t, "default": bool(t[0] == "opt" and opt_defaults),
+                                 "annotated": rng.random() < 0.3}
+                if c in L.ty_classes(t) and rng.random() < 0.6:
+                    names[str(n)]["self"] = True      # the recursion is written typing.Self instead of the class name
                 own.append(n)
         if not kw_only:
             own = [n for n in own if not names[str(n)]["default"]] + [n for n in own if names[str(n)]["default"]]
@@ -202,7 +220,7 @@ def gen_schema(rng):
 
 class Uid:
     def __init__(self):
-        self.n = 100    # away from the construction counter used during decoding
+        self.n = 0      # small identities: they are unary nat literals on the Coq side
 
     def next(self):
         self.n += 1
@@ -254,6 +272,20 @@ def transit_leaves(schema, v, on_path=True, depth=0, transit=False):
     return n, md
 
 
+def gen_value_capped(rng, schema, t, toml, maxd=4, cap=45):
+    """a value with at most `cap` instances (identities are unary numerals in the Coq case files; a 500-instance tree
+    costs minutes of type checking and adds nothing a 40-instance tree does not have)"""
+    best = None
+    for _ in range(8):
+        v = gen_value(rng, schema, t, 0, Uid(), toml, maxd)
+        n = len(L.insts_of(v))
+        if best is None or n < best[0]:
+            best = (n, v)
+        if n <= cap:
+            return v
+    return best[1]
+
+
 def gen_root_ty(rng, schema, want_dc):
     n = len(schema["classes"])
     c = n - 1 if rng.random() < 0.6 else rng.randrange(n)
@@ -287,7 +319,9 @@ def reaches_recursive(schema, t, seen=None):
         seen.add(c)
         for n in L.flat_fields(schema, c):
             ft = L.name_ty(schema, n)
-            if c in L.ty_classes(ft) or reaches_recursive(schema, ft, seen):
+            if c in L.ty_classes(ft) and not schema["names"][str(n)].get("self"):
+                return True      # (recursion spelled typing.Self does work through codecs)
+            if reaches_recursive(schema, ft, seen):
                 return True
     return False
 
@@ -306,7 +340,11 @@ def entries_for(rng, schema, root_ty, direction, thorough):
             es.append({"dir": direction, "via": "mixin", "method": m, "ctx": False})
             if direction == "ser" and L.ctx_on(schema, root_ty[1]):
                 es.append({"dir": direction, "via": "mixin", "method": m, "ctx": True})
-            if "dialect" in L.class_flags(schema, root_ty[1]):     # same calls with an (empty) call-time dialect
+            # (not for a format-specific method of a Config-discriminator hierarchy: /repo raises AttributeError when
+            # Base.from_msgpack(data, dialect=D) is the first msgpack call - the variant's unpacker is compiled into the
+            # dialect cache only; a C05/C14 matter, reported, outside C19)
+            if "dialect" in L.class_flags(schema, root_ty[1]) and not (
+                    schema.get("has_disc") and m != "from_dict" and kind in ("orjson", "msgpack", "toml")):
                 es.append({"dir": direction, "via": "mixin", "method": m, "ctx": False, "dialect": True})
                 if direction == "ser" and L.ctx_on(schema, root_ty[1]):
                     es.append({"dir": direction, "via": "mixin", "method": m, "ctx": True, "dialect": True})
@@ -329,7 +367,7 @@ def shape_key(schema, root_ty, value, entry):
         if v[0] == "list":
             return ("l", tuple(vs(x) for x in v[2]))
         return v[0]
-    s = json.dumps([schema["kind"], schema["kw_only"], schema["repl"], schema.get("dialect"), schema.get("mixed_flags"), schema.get("future_ann"), schema["names"], schema["classes"], root_ty,
+    s = json.dumps([schema["kind"], schema["kw_only"], schema["repl"], schema.get("dialect"), schema.get("mixed_flags"), schema.get("future_ann"), schema.get("spell"), schema["names"], schema["classes"], root_ty,
                     entry], sort_keys=True) + repr(vs(value))
     return hashlib.sha1(s.encode()).hexdigest()[:16]
 
@@ -437,7 +475,7 @@ def run(ctx: vlib.Ctx):
     # 2+3. cases
     rng = ctx.rng
     thorough = not ctx.quick()
-    n_schemas = ctx.budget(70, 600)
+    n_schemas = ctx.budget(60, 600)
     vals_per = ctx.budget(3, 4)
     ser_cases, de_cases = [], []     # (case dict, res)
     envs = []                        # coq env text per schema index
@@ -463,6 +501,13 @@ def run(ctx: vlib.Ctx):
         ctx.hist("schema_features", "call-dialect", int(bool(schema.get("dialect"))))
         ctx.hist("schema_features", "per-class-flags", int(bool(schema.get("mixed_flags"))))
         ctx.hist("schema_features", "chain-family", int(bool(schema.get("chain"))))
+        ctx.hist("schema_features", "typing.Self recursion", int(any(x.get("self") for x in schema["names"].values())))
+        ctx.hist("schema_features", "class-name recursion", int(any(
+            (not x.get("self")) and any(n in map(str, k["own_fields"]) and ci in L.ty_classes(x["ty"])
+                                        for ci, k in enumerate(schema["classes"]))
+            for n, x in schema["names"].items())))
+        for sk, sv in (schema.get("spell") or {}).items():
+            ctx.hist("spelling", sk, int(bool(sv)))
         ctx.hist("schema_features", "postponed-annotations", int(bool(schema.get("future_ann"))))
         try:
             for root_ty, value in roots:
@@ -507,15 +552,15 @@ def run(ctx: vlib.Ctx):
         roots = []
         for vi in range(vals_per):
             root_ty = gen_root_ty(rng, schema, want_dc=(vi == 0))
-            roots.append((root_ty, gen_value(rng, schema, root_ty, 0, Uid(), schema["toml_safe"])))
+            roots.append((root_ty, gen_value_capped(rng, schema, root_ty, schema["toml_safe"])))
         do_schema(si, schema, roots)
         si += 1
 
     # context / flag chains (depth 3-5, every class with its own opt-ins and hook profile)
-    for _ in range(ctx.budget(60, 500)):
+    for _ in range(ctx.budget(45, 500)):
         schema = gen_chain_schema(rng)
         root_ty = ["dc", len(schema["classes"]) - 1]
-        roots = [(root_ty, gen_value(rng, schema, root_ty, 0, Uid(), schema["toml_safe"], maxd=12)) for _ in range(2)]
+        roots = [(root_ty, gen_value_capped(rng, schema, root_ty, schema["toml_safe"], maxd=12)) for _ in range(2)]
         for _, v in roots:
             nt, md = transit_leaves(schema, v)
             ctx.hist("context_chains", "hooked opted-in node behind a hook-less opted-in class", int(nt > 0))
@@ -587,8 +632,21 @@ def run(ctx: vlib.Ctx):
         return (f"(E{case['env']}, {L.coq_wire_typed(case['schema'], case['root_ty'], case['wire'])}, "
                 f"{L.coq_ty(case['root_ty'])}, {r}, {evs})")
 
+    t_c0 = time.time()
     corr("c19_ser", ser_cases, render_ser, "ser_ok", "ser_case")
+    t_c1 = time.time()
     corr("c19_de", de_cases, render_de, "de_ok", "de_case")
+    ctx.notes.append(f"generation+library {t_c0 - t_start:.1f}s, coq ser {t_c1 - t_c0:.1f}s, coq de {time.time() - t_c1:.1f}s")
+
+    # the case files are large; nothing needs them after the evaluation
+    import glob
+    import os
+    for f in ([] if os.environ.get("C19_KEEP_CASES") else
+              glob.glob(os.path.join(vlib.CASES, "c19_*")) + glob.glob(os.path.join(vlib.CASES, ".c19_*"))):
+        try:
+            os.remove(f)
+        except OSError:
+            pass
 
     # evidence: samples
     for case, res, verdict in (ser_cases[:2] + de_cases[:1] + ser_cases[len(ser_cases) // 2:len(ser_cases) // 2 + 2]):
